@@ -29,9 +29,18 @@ def ble : Name → Name → Bool
   | _ :: _, [] => false
   | a :: as, b :: bs => if a < b then true else if b < a then false else ble as bs
 
-/-- `sort.Strings` (any correct sort; the result is determined by the multiset, see
-`sortBy_perm_invariant`). -/
-def sortNames (l : List Name) : List Name := l.mergeSort ble
+/-- insertion into a sorted list -/
+def insertBy {α : Type} (le : α → α → Bool) (a : α) : List α → List α
+  | [] => [a]
+  | b :: bs => if le a b then a :: b :: bs else b :: insertBy le a bs
+
+/-- A sort (insertion sort: structurally recursive, so it also evaluates in the
+kernel).  Which algorithm Go uses is irrelevant: for a total order the sorted
+list is determined by the multiset of elements (`sortBy_perm_invariant`). -/
+def sortBy {α : Type} (le : α → α → Bool) (l : List α) : List α := l.foldr (insertBy le) []
+
+/-- `sort.Strings` -/
+def sortNames (l : List Name) : List Name := sortBy ble l
 
 /-! ## cmd/wuffs/main.go -/
 
@@ -82,7 +91,7 @@ then "for _, qqids := range c.builtInInterfaces { sort.Slice(qqids, LessThan) }"
 the methods of interface `q`, given the enumeration order of the method map.
 `ifaceOf` is `t.QID{qqid[0], qqid[1]}`. -/
 def interfaceMethods (ifaceOf : Key → Key) (order : List Key) (q : Key) : List Key :=
-  ((order.foldl (fun (acc : List Key) k => if ifaceOf k == q then acc ++ [k] else acc) []).mergeSort nle)
+  sortBy nle (order.foldl (fun (acc : List Key) k => if ifaceOf k == q then acc ++ [k] else acc) [])
 
 /-- check.go checkInterfacesSatisfied: "pick the largest key despite randomized map
 iteration order": `method := zero; for k := range m { if method.LessThan(k) { method = k } }`. -/
@@ -188,7 +197,7 @@ structure Orders where
   byQIDRep : GoMap Key Nat   -- representation of sort.go's byQID
 
 /-- a compilation unit, as far as the abstraction cares -/
-structure Unit where
+structure CompUnit where
   decls : List Key                 -- top-level declarations, in file order
   structs : List StructDecl        -- struct declarations, in file order
   typeRefs : List Key              -- struct types mentioned in type expressions
@@ -199,7 +208,7 @@ structure Unit where
   renderStruct : Nat → List Nat
   renderMethods : List Key → List Nat
 
-def emit (o : Orders) (u : Unit) : Option (List Nat) :=
+def emit (o : Orders) (u : CompUnit) : Option (List Nat) :=
   -- lang/check: all nodes type-checked (which error is reported is order-dependent; that one fails is not)
   if (firstError u.typeChecked o.consts).isSome || (firstError u.typeChecked o.funcs).isSome
      || (firstError u.typeChecked o.statuses).isSome || (firstError u.typeChecked o.structs).isSome then none
